@@ -76,7 +76,7 @@ def loops(draw, start, end, big):
     n = draw(st.integers(1, 3))
     k = 0
     while k < n:
-        kind = draw(st.sampled_from(["acc", "acc", "mutual", "relay_int", "relay_set", "relay_dict"]))
+        kind = draw(st.sampled_from(["acc", "acc", "mutual", "relay_int", "relay_set", "relay_dict", "relay_bundle", "relay_list"]))
         init = draw(st.integers(0, 9)) if draw(st.booleans()) else None
         passive = draw(st.integers(0, 3)) != 0
         if kind == "acc":
@@ -101,10 +101,18 @@ def loops(draw, start, end, big):
             edges.append((f2, f"a{k + 1}", True, init2, "TS[int]"))
             k += 2
         else:
-            schema = {"relay_int": "TS[int]", "relay_set": "TSS[int]", "relay_dict": "TSD[int,TS[int]]"}[kind]
+            schema = {"relay_int": "TS[int]", "relay_set": "TSS[int]", "relay_dict": "TSD[int,TS[int]]",
+                      "relay_bundle": "TSB[f0:TS[int],f1:TS[int],f2:TS[int]]", "relay_list": "TSL[TS[int],3]"}[kind]
             fb, w = f"fb{k}", f"w{k}"
             if kind == "relay_int":
                 script = draw(gen.int_script(start, end - 1, max_size=9 if big else 6, min_size=1))
+            elif kind in ("relay_bundle", "relay_list"):
+                # child-only writes: a field / element may tick late or never, so the composite is partially valid for a while
+                script = []
+                fields = draw(st.lists(st.integers(0, 2), min_size=1, max_size=3, unique=True))
+                for t in draw(gen.time_set(start, end - 1, 1, 7 if big else 5)):
+                    idx = draw(st.lists(st.sampled_from(fields), min_size=1, max_size=len(fields), unique=True))
+                    script.append([t, [{"k": "i", "i": i_, "op": {"k": "set", "v": draw(st.integers(0, 50))}} for i_ in idx]])
             elif kind == "relay_set":
                 script = _set_script(draw, start, end, 7 if big else 5, empty_first=draw(st.integers(0, 2)) == 0)
             else:
